@@ -24,7 +24,7 @@ Record seg := mkseg {
   sg_flags_b  : list (ent * list bool);
   sg_switched : list ent }.           (* went through a row switch at some point (finding)        *)
 
-Definition snap0 : snap := mksnap [] [] [] [] [] [] 0.
+Definition snap0 : snap := mksnap [] [] [] [] [] [] 0 [].
 Definition new_seg (sn : snap) (seen : list lrow) (switched : list ent) : seg :=
   mkseg sn [] [] false false [] [] seen seen [] [] [] [] switched.
 
